@@ -1,1 +1,410 @@
-fn main(){}
+//! pv-harness-gen: drives the Rust code that pilota-build EMITS (included below, one file per builder
+//! configuration) through bytes and `{:?}` only.  One case per stdin line, one result per stdout line
+//! (formats: /verif/fam/gen/FORMAT.md).
+#![allow(clippy::all)]
+mod asyncrd;
+
+use std::fmt::Debug;
+use std::io::{BufRead, Write};
+use std::panic::{catch_unwind, AssertUnwindSafe};
+use std::sync::atomic::{AtomicUsize, Ordering::Relaxed};
+
+use bytes::{Bytes, BytesMut};
+use pilota::thrift::{
+    binary::{TAsyncBinaryProtocol, TBinaryProtocol},
+    binary_le::{TAsyncBinaryProtocol as TAsyncBinaryLeProtocol, TBinaryProtocol as TBinaryLeProtocol},
+    binary_unsafe::{TBinaryUnsafeInputProtocol, TBinaryUnsafeOutputProtocol},
+    compact::{TAsyncCompactProtocol, TCompactInputProtocol, TCompactOutputProtocol},
+    Message, ThriftException,
+};
+
+// ---- the emitted code (written by pv-gen-build under $PV_GEN_OUT at check time)
+include!(concat!(env!("PV_GEN_OUT"), "/includes.rs"));
+// ---- generated dispatch table: (cfg, type name) -> run::<path::Type>
+include!(concat!(env!("PV_GEN_OUT"), "/dispatch.rs"));
+
+/// counting global allocator: live bytes and peak live bytes; requests above 4 GiB are refused
+pub struct Counting;
+pub static LIVE: AtomicUsize = AtomicUsize::new(0);
+pub static PEAK: AtomicUsize = AtomicUsize::new(0);
+unsafe impl std::alloc::GlobalAlloc for Counting {
+    unsafe fn alloc(&self, l: std::alloc::Layout) -> *mut u8 {
+        if l.size() > (4usize << 30) {
+            return std::ptr::null_mut();
+        }
+        let p = std::alloc::System.alloc(l);
+        if !p.is_null() {
+            let live = LIVE.fetch_add(l.size(), Relaxed) + l.size();
+            PEAK.fetch_max(live, Relaxed);
+        }
+        p
+    }
+    unsafe fn dealloc(&self, p: *mut u8, l: std::alloc::Layout) {
+        LIVE.fetch_sub(l.size(), Relaxed);
+        std::alloc::System.dealloc(p, l)
+    }
+    unsafe fn realloc(&self, p: *mut u8, l: std::alloc::Layout, new_size: usize) -> *mut u8 {
+        if new_size > (4usize << 30) {
+            return std::ptr::null_mut();
+        }
+        let q = std::alloc::System.realloc(p, l, new_size);
+        if !q.is_null() {
+            if new_size >= l.size() {
+                let live = LIVE.fetch_add(new_size - l.size(), Relaxed) + (new_size - l.size());
+                PEAK.fetch_max(live, Relaxed);
+            } else {
+                LIVE.fetch_sub(l.size() - new_size, Relaxed);
+            }
+        }
+        q
+    }
+}
+#[global_allocator]
+static GLOBAL: Counting = Counting;
+
+pub fn hex(b: &[u8]) -> String {
+    if b.is_empty() {
+        return "-".to_string();
+    }
+    let mut s = String::with_capacity(b.len() * 2);
+    for x in b {
+        s.push_str(&format!("{:02x}", x));
+    }
+    s
+}
+
+pub fn unhex(s: &str) -> Result<Vec<u8>, String> {
+    if s == "-" {
+        return Ok(vec![]);
+    }
+    if s.len() % 2 != 0 {
+        return Err("odd hex".into());
+    }
+    (0..s.len() / 2)
+        .map(|i| u8::from_str_radix(&s[2 * i..2 * i + 2], 16).map_err(|e| e.to_string()))
+        .collect()
+}
+
+pub fn err_class(e: &ThriftException) -> String {
+    let (c, m) = match e {
+        ThriftException::Protocol(p) => (
+            match format!("{:?}", p.kind()).as_str() {
+                "InvalidData" => "invalid_data",
+                "NegativeSize" => "negative_size",
+                "SizeLimit" => "size_limit",
+                "DepthLimit" => "depth_limit",
+                "BadVersion" => "bad_version",
+                _ => "other",
+            },
+            format!("{}", e),
+        ),
+        ThriftException::Transport(_) => ("transport", format!("{}", e)),
+        ThriftException::Application(_) => ("other", format!("{}", e)),
+    };
+    let m: String = m.chars().map(|c| if c == '\n' || c == '\r' { ' ' } else { c }).take(160).collect();
+    format!("{c} {m}")
+}
+
+#[derive(Clone, Copy, PartialEq, Debug)]
+pub enum Pk {
+    Binary,
+    BinaryLe,
+    Compact,
+    Unchecked,
+}
+
+#[derive(Clone, Copy, PartialEq, Debug)]
+pub enum Mode {
+    Sync,
+    Async { chunk: usize, pend: bool },
+}
+
+pub struct Case<'a> {
+    pub op: &'a str,
+    pub pk: Pk,
+    pub mode: Mode,
+    pub data: Vec<u8>,
+}
+
+fn parse_pk(s: &str) -> Result<Pk, String> {
+    Ok(match s {
+        "binary" => Pk::Binary,
+        "binary_le" => Pk::BinaryLe,
+        "compact" => Pk::Compact,
+        "unchecked" => Pk::Unchecked,
+        _ => return Err(format!("unknown protocol {s}")),
+    })
+}
+
+fn parse_mode(s: &str) -> Result<Mode, String> {
+    if s == "sync" {
+        return Ok(Mode::Sync);
+    }
+    let sch = s.strip_prefix("async:").ok_or_else(|| format!("unknown mode {s}"))?;
+    Ok(match sch {
+        "all" => Mode::Async { chunk: 0, pend: false },
+        "1" => Mode::Async { chunk: 1, pend: false },
+        _ if sch.starts_with('c') => Mode::Async { chunk: sch[1..].parse().map_err(|_| "bad schedule")?, pend: false },
+        _ if sch.starts_with('p') => Mode::Async { chunk: sch[1..].parse().map_err(|_| "bad schedule")?, pend: true },
+        _ => return Err(format!("unknown schedule {sch}")),
+    })
+}
+
+/// decode one T; returns (result, remaining bytes)
+fn decode_sync<T: Message>(pk: Pk, b: &mut Bytes) -> (Result<T, ThriftException>, usize) {
+    match pk {
+        Pk::Binary => {
+            let r = T::decode(&mut TBinaryProtocol::new(&mut *b, true));
+            (r, b.len())
+        }
+        Pk::BinaryLe => {
+            let r = T::decode(&mut TBinaryLeProtocol::new(&mut *b, true));
+            (r, b.len())
+        }
+        Pk::Compact => {
+            let r = T::decode(&mut TCompactInputProtocol::new(&mut *b));
+            (r, b.len())
+        }
+        Pk::Unchecked => {
+            let (r, idx) = {
+                let mut p = unsafe { TBinaryUnsafeInputProtocol::new(&mut *b) };
+                let r = T::decode(&mut p);
+                (r, p.index())
+            };
+            (r, b.len().saturating_sub(idx))
+        }
+    }
+}
+
+/// Some((result, remaining)) or None when the future does not complete (hang)
+fn decode_async<T: Message>(pk: Pk, data: Vec<u8>, chunk: usize, pend: bool) -> Option<(Result<T, ThriftException>, usize)> {
+    let n = data.len();
+    let budget = 64 * (n + 64) * 4;
+    let mut rd = asyncrd::Scripted::new(data, chunk, pend);
+    let r = match pk {
+        Pk::Binary | Pk::Unchecked => {
+            let mut p = TAsyncBinaryProtocol::new(&mut rd);
+            asyncrd::block_on(T::decode_async(&mut p), budget)
+        }
+        Pk::BinaryLe => {
+            let mut p = TAsyncBinaryLeProtocol::new(&mut rd);
+            asyncrd::block_on(T::decode_async(&mut p), budget)
+        }
+        Pk::Compact => {
+            let mut p = TAsyncCompactProtocol::new(&mut rd);
+            asyncrd::block_on(T::decode_async(&mut p), budget)
+        }
+    };
+    r.map(|r| (r, n - rd.handed_out()))
+}
+
+fn decode_any<T: Message>(c: &Case) -> Option<(Result<T, ThriftException>, usize)> {
+    match c.mode {
+        Mode::Sync => {
+            let mut b = Bytes::from(c.data.clone());
+            Some(decode_sync::<T>(c.pk, &mut b))
+        }
+        Mode::Async { chunk, pend } => decode_async::<T>(c.pk, c.data.clone(), chunk, pend),
+    }
+}
+
+/// size() on the output protocol object, then encode on the same object. Returns (size, bytes, note)
+fn size_and_encode<T: Message>(pk: Pk, v: &T) -> Result<(usize, Vec<u8>, String), ThriftException> {
+    match pk {
+        Pk::Binary => {
+            let mut buf = BytesMut::new();
+            let mut p = TBinaryProtocol::new(&mut buf, true);
+            let n = v.size(&mut p);
+            v.encode(&mut p)?;
+            Ok((n, buf.to_vec(), String::new()))
+        }
+        Pk::BinaryLe => {
+            let mut buf = BytesMut::new();
+            let mut p = TBinaryLeProtocol::new(&mut buf, true);
+            let n = v.size(&mut p);
+            v.encode(&mut p)?;
+            Ok((n, buf.to_vec(), String::new()))
+        }
+        Pk::Compact => {
+            let mut buf = BytesMut::new();
+            let mut p = TCompactOutputProtocol::new(&mut buf, true);
+            let n = v.size(&mut p);
+            v.encode(&mut p)?;
+            Ok((n, buf.to_vec(), String::new()))
+        }
+        Pk::Unchecked => {
+            // the contract of the unchecked writer: the buffer is at least size() bytes.  Give it exactly
+            // that, inside a larger allocation filled with guard bytes, and check the guards afterwards.
+            const GUARD: usize = 64;
+            let n = {
+                let mut tmp = BytesMut::new();
+                let mut p = TBinaryProtocol::new(&mut tmp, true);
+                v.size(&mut p)
+            };
+            let mut buf = BytesMut::with_capacity(n + GUARD);
+            unsafe {
+                std::ptr::write_bytes(buf.as_mut_ptr(), 0xA5, n + GUARD);
+                // the BytesMut flavour of the unchecked writer indexes `trans` as a slice: its LENGTH
+                // (not only its capacity) has to cover the message (this is how the benches call it)
+                buf.set_len(n);
+            }
+            let (idx, n2) = unsafe {
+                let s = std::slice::from_raw_parts_mut(buf.as_mut_ptr(), n);
+                let mut p = TBinaryUnsafeOutputProtocol::new(&mut buf, s, true);
+                let n2 = v.size(&mut p);
+                v.encode(&mut p)?;
+                (p.index(), n2)
+            };
+            let mut note = String::new();
+            if n2 != n {
+                note.push_str(&format!(" NOTE unchecked-size-differs {n2} vs {n}"));
+            }
+            if idx > n {
+                note.push_str(&format!(" NOTE wrote-past-size {idx} > {n}"));
+            }
+            let all = unsafe { std::slice::from_raw_parts(buf.as_ptr(), n + GUARD) };
+            if idx <= n && all[n..].iter().any(|b| *b != 0xA5) {
+                note.push_str(" NOTE guard-bytes-overwritten");
+            }
+            let out = all[..std::cmp::min(idx, n + GUARD)].to_vec();
+            Ok((n, out, note))
+        }
+    }
+}
+
+pub fn run<T: Message + Debug + Default>(c: &Case) -> String {
+    match c.op {
+        "dec" => match decode_any::<T>(c) {
+            None => "hang".to_string(),
+            Some((Ok(v), rem)) => format!("ok {:?} REM {}", v, rem),
+            Some((Err(e), _)) => format!("err {}", err_class(&e)),
+        },
+        "renc" => match decode_any::<T>(c) {
+            None => "hang".to_string(),
+            Some((Err(e), _)) => format!("err {}", err_class(&e)),
+            Some((Ok(v), rem)) => match size_and_encode(c.pk, &v) {
+                Ok((n, bytes, note)) => format!("ok {:?} REM {} SIZE {} ENC {}{}", v, rem, n, hex(&bytes), note),
+                Err(e) => format!("encerr {}", err_class(&e)),
+            },
+        },
+        "dflt" => {
+            let d = T::default();
+            let enc = match size_and_encode(c.pk, &d) {
+                Ok((n, bytes, note)) => format!("SIZE {} ENC {}{}", n, hex(&bytes), note),
+                Err(e) => format!("ENCERR {}", err_class(&e)),
+            };
+            let c0 = Case { op: "dec", pk: c.pk, mode: Mode::Sync, data: vec![0u8] };
+            let empty = match catch_unwind(AssertUnwindSafe(|| decode_any::<T>(&c0))) {
+                Err(_) => "panic".to_string(),
+                Ok(None) => "hang".to_string(),
+                Ok(Some((Ok(v), rem))) => format!("ok {:?} REM {}", v, rem),
+                Ok(Some((Err(e), _))) => format!("err {}", err_class(&e)),
+            };
+            format!("DEF {:?} {} EMPTY {}", d, enc, empty)
+        }
+        "mem" => {
+            // twice: the first run may initialise process-wide lazies (hash seeds, ...); report the second
+            let mut last = String::new();
+            for _ in 0..2 {
+                last = mem_once::<T>(c);
+            }
+            last
+        }
+        _ => format!("BADCASE unknown op {}", c.op),
+    }
+}
+
+fn mem_once<T: Message>(c: &Case) -> String {
+    let mut data = c.data.clone();
+    data.shrink_to_fit();
+    let cap = data.capacity();
+    let live0 = LIVE.load(Relaxed);
+    PEAK.store(live0, Relaxed);
+    let (outcome, unique) = match c.mode {
+        Mode::Sync => {
+            let mut input = Bytes::from(data);
+            let keep = input.clone(); // our own second handle: the decoder works on `input`
+            let r = catch_unwind(AssertUnwindSafe(|| decode_sync::<T>(c.pk, &mut input)));
+            let o = match r {
+                Err(_) => "panic",
+                Ok((Ok(v), _)) => {
+                    drop(v);
+                    "ok"
+                }
+                Ok((Err(e), _)) => {
+                    drop(e);
+                    "err"
+                }
+            };
+            drop(input);
+            let u = keep.is_unique();
+            drop(keep);
+            (o, u)
+        }
+        Mode::Async { chunk, pend } => {
+            let r = catch_unwind(AssertUnwindSafe(|| decode_async::<T>(c.pk, data, chunk, pend)));
+            let o = match r {
+                Err(_) => "panic",
+                Ok(None) => "hang",
+                Ok(Some((Ok(v), _))) => {
+                    drop(v);
+                    "ok"
+                }
+                Ok(Some((Err(e), _))) => {
+                    drop(e);
+                    "err"
+                }
+            };
+            (o, true)
+        }
+    };
+    let peak = PEAK.load(Relaxed).saturating_sub(live0);
+    let live1 = LIVE.load(Relaxed);
+    let residual = live1 as isize + cap as isize - live0 as isize;
+    format!("{} LIVE {} PEAK {} REFS {}", outcome, residual, peak, if unique { 0 } else { 1 })
+}
+
+fn run_line(line: &str) -> Result<String, String> {
+    let t: Vec<&str> = line.split(' ').collect();
+    if t.len() < 4 {
+        return Err("short case line".into());
+    }
+    let op = t[0];
+    let (cfg, ty) = (t[1], t[2]);
+    let pk = parse_pk(t[3])?;
+    let (mode, data) = if op == "dflt" {
+        (Mode::Sync, vec![])
+    } else {
+        if t.len() < 6 {
+            return Err("short case line".into());
+        }
+        (parse_mode(t[4])?, unhex(t[5])?)
+    };
+    let c = Case { op, pk, mode, data };
+    dispatch(cfg, ty, &c).ok_or_else(|| format!("unknown type {cfg} {ty}"))
+}
+
+fn main() {
+    if std::env::var("PV_VERBOSE").is_err() {
+        std::panic::set_hook(Box::new(|_| {}));
+    }
+    let stdin = std::io::stdin();
+    let stdout = std::io::stdout();
+    let mut out = std::io::BufWriter::new(stdout.lock());
+    for line in stdin.lock().lines() {
+        let line = line.unwrap();
+        let line = line.trim();
+        if line.is_empty() {
+            writeln!(out).unwrap();
+            continue;
+        }
+        let r = catch_unwind(AssertUnwindSafe(|| run_line(line)));
+        match r {
+            Ok(Ok(s)) => writeln!(out, "{s}").unwrap(),
+            Ok(Err(e)) => writeln!(out, "BADCASE {e}").unwrap(),
+            Err(_) => writeln!(out, "panic").unwrap(),
+        }
+        out.flush().unwrap();
+    }
+    out.flush().unwrap();
+}
